@@ -23,6 +23,7 @@ def bad_bodies(enc):
         'bad-mti': e('12X0') + bm([2]) + e('0512345'),
         'unknown-bit': e('1240') + bm([2, 7]) + e('0512345'),
         'bad-field-length': e('1240') + bm([2]) + e('XX12345'),
+        'bad-field-length-superscript': e('1240') + bm([2]) + e('0\xb212345'),
         'bad-typed-value': e('1240') + bm([4]) + e('00000000ABCD'),
         'bad-pds': e('1240') + bm([48]) + e('0070001XX1'),
         'bad-icc': e('1240') + bm([55]) + e('001') + b'\x9f',
@@ -129,6 +130,55 @@ def fault(nmax, kinds, enc, blocked):
     return h
 
 
+def two_faults(enc, blocked):
+    """two bad records in one file; the consumer catches the first error and keeps iterating"""
+    def h():
+        core.FUEL.set(24)
+        m = M().mciipm
+        iso = M().iso8583
+        kinds = list(bad_bodies(enc))
+        k1 = choose('k1', [1, 2])
+        k2 = choose('k2', [k1 + 1, k1 + 2])
+        kind1 = choose('kind1', kinds)
+        kind2 = choose('kind2', ['bad-mti', 'bad-typed-value', 'oversize'])
+        n = k2 + 1
+        f = RopeFile()
+        w = m.VbsWriter(f, blocked=blocked)
+        for i in range(1, n + 1):
+            if i == k1:
+                w.write(bad_bodies(enc)[kind1])
+            elif i == k2:
+                if kind2 == 'oversize':
+                    w.out_file.write(struct.pack('>I', 70000))
+                else:
+                    w.write(bad_bodies(enc)[kind2])
+            else:
+                msg, elems = _good(i, enc)
+                w.write(iso.dumps(dict(msg), encoding=enc))
+        w.close()
+        rp = {'kind': 'twofaults', 'args': {'k1': k1, 'k2': k2, 'kind1': kind1, 'kind2': kind2, 'enc': enc, 'blocked': blocked}}
+        rd = m.IpmReader(RopeFile(f.getvalue()), encoding=enc, blocked=blocked)
+        errors = []
+        delivered = 0
+        with guard('IpmReader', 'C10/exception', rp, allow=(m.MciIpmDataError,)):
+            for _ in range(n + 2):
+                core.FUEL.set(24)
+                try:
+                    next(rd)
+                    delivered += 1
+                except StopIteration:
+                    break
+                except m.MciIpmDataError as e:
+                    errors.append(e.record_number)
+                    if len(errors) == 2:
+                        break
+        require(len(errors) == 2, 'expected two errors, got %s' % errors, key='C10/two-faults', replay=rp)
+        require(errors[0] == k1, 'first bad record is %d, reported %s' % (k1, errors[0]), key='C10/two-faults', replay=rp)
+        require(errors[1] == k2, 'second bad record is %d, reported %s' % (k2, errors[1]), key='C10/two-faults', replay=rp)
+        return {'sample': dict(rp['args'], reported=errors), 'replay': rp}
+    return h
+
+
 def obligations(tier):
     q = tier == 'quick'
     nmax = 3 if q else 4
@@ -141,4 +191,7 @@ def obligations(tier):
                           'n in 1..%d records, every k, truncated record (every cut offset inside the body) and oversize length (6001..2^32-1)' % nmax, _funcs))
             obs.append(Ob('message/' + tag, fault(nmax, msgkinds, enc, blocked), 600,
                           'n in 1..%d records, every k, message-level faults %s' % (nmax, msgkinds), _funcs))
+    for blocked in (False, True):
+        obs.append(Ob('two-faults/latin_1/%s' % ('1014' if blocked else 'vbs'), two_faults('latin_1', blocked), 300,
+                      'two bad records (positions k1 < k2, every message-level kind first, then bad MTI / bad value / oversize), consumer continues after the first error', _funcs))
     return obs
